@@ -39,6 +39,7 @@ def run(tier):
         else:
             lens = sorted(set(range(0, min(size + 6, maxL) + 1)) | set(v for v in valid if v <= maxL))
         conds += X.write_decode_module(work, tier, fam, s, lens, valid)
+    conds = C.only(conds)
     raw = run_conditions(conds, timeout)
     obs, _ = to_obligations('C06', conds, raw, schema_text=fam['text'])
     return C.finish('C06', tier, obs, t0, functions=X.FUNCS_DEC + X.FUNCS_ENC,
